@@ -67,17 +67,40 @@ def discharge_all(fam, seed=0, timeout_ms=solver.DEFAULT_TIMEOUT_MS):
     assumptions and goal, which happens for mid-path obligations on a shared path prefix)
     are sent to the solver once."""
     cache = {}
-    for o in fam.obls:
+
+    def run(o, **kw):
         if z3.is_true(o.goal):
-            o.verdict = solver.Verdict("proved", 0.0, "trivial")
-            continue
+            return solver.Verdict("proved", 0.0, "trivial")
         key = (tuple(sorted(f.get_id() for f in o.assumptions)), o.goal.get_id())
         if key in cache:
             v = cache[key]
-            o.verdict = solver.Verdict(v.status, 0.0, v.backend + "(shared)", v.model, v.n_instances, v.reason)
+            return solver.Verdict(v.status, 0.0, v.backend + "(shared)", v.model, v.n_instances, v.reason)
+        v = solver.prove(o.assumptions, o.goal, seed=seed, **kw)
+        cache[key] = v
+        return v
+
+    out = []
+    for o in fam.obls:
+        cases = getattr(o, "cases", None)
+        if cases and len(cases) > 1:
+            # adaptive case split (DESIGN §3.2): try the clause as a whole first; only when
+            # that is not proved is it split into the named sign / parity cases
+            v = run(o, timeout_ms=8000, portfolio=False)
+            if v.status == "proved":
+                o.verdict = v
+                out.append(o)
+                continue
+            cache.pop((tuple(sorted(f.get_id() for f in o.assumptions)), o.goal.get_id()), None)
+            for label, conds in cases:
+                c = H.Obl(f"{o.fam_name}/{o.clause}[{label}]@{o.idx}", o.props, o.assumptions + list(conds), o.goal,
+                          kind=o.kind, info=label, bounded=o.bounded, path_labels=o.path_labels)
+                c.res = o.res
+                c.verdict = run(c, timeout_ms=timeout_ms)
+                out.append(c)
             continue
-        o.verdict = solver.prove(o.assumptions, o.goal, timeout_ms=timeout_ms, seed=seed)
-        cache[key] = o.verdict
+        o.verdict = run(o, timeout_ms=timeout_ms)
+        out.append(o)
+    fam.obls = out
 
 
 def extract_model(o):
